@@ -20,7 +20,7 @@ func TestApartConfigsAllForks(t *testing.T) {
 	for seed := int64(0); seed < int64(n); seed++ {
 		cfg := Apart(seed)
 		nv := []int{64, 50, 97, 33}[seed%4]
-		c := runChain(t, cfg, nv, []string{"mixed", "rich", "poor", "uniform"}[seed%4], seed, 9*int(cfg.Spec.SLOTS_PER_EPOCH), nil)
+		c := runChain(t, cfg, nv, []string{"mixed", "rich", "poor", "uniform"}[seed%4], seed, (int(ForkEpochs(cfg.Spec)[3])+2)*int(cfg.Spec.SLOTS_PER_EPOCH), nil)
 		if len(c.Counters.Forks) != 5 {
 			t.Errorf("%s: forks %v", cfg.ID, c.Counters.Forks)
 		}
@@ -213,4 +213,86 @@ func TestSoak2(t *testing.T) {
 		tot.Add(&c.Counters)
 	}
 	t.Logf("TOTAL %s", tot.Summary())
+}
+
+// TestApartRound3: the round-3 ingredients occur over the seeds and do what they are for.
+func TestApartRound3(t *testing.T) {
+	var nonMult, cap16, cap64, blobs7 int
+	seeds := int64(3) // CHAIN_SOAK3=<n> for more
+	if v, _ := strconv.Atoi(os.Getenv("CHAIN_SOAK3")); v > 0 {
+		seeds = int64(v)
+	}
+	// the ingredients occur over the seeds (no chains needed for that)
+	var inm, icap, iblob int
+	for seed := int64(1); seed <= 40; seed++ {
+		sp := Apart(seed).Spec
+		if uint64(sp.SLOTS_PER_HISTORICAL_ROOT)%uint64(sp.SLOTS_PER_EPOCH) != 0 {
+			inm++
+		}
+		if sp.MAX_EFFECTIVE_BALANCE != 32*gwei {
+			icap++
+		}
+		if sp.MAX_BLOBS_PER_BLOCK >= 7 {
+			iblob++
+		}
+	}
+	t.Logf("of 40 seeds: non-multiple SPHR %d, cap != 32 ETH %d, blobs >= 7 %d", inm, icap, iblob)
+	if inm < 8 || icap < 8 || iblob < 8 {
+		t.Errorf("an ingredient is too rare")
+	}
+	for seed := int64(1); seed <= seeds; seed++ {
+		cfg := Apart(seed)
+		sp := cfg.Spec
+		period := uint64(sp.SLOTS_PER_HISTORICAL_ROOT) / uint64(sp.SLOTS_PER_EPOCH)
+		nm := uint64(sp.SLOTS_PER_HISTORICAL_ROOT)%uint64(sp.SLOTS_PER_EPOCH) != 0
+		if uint64(sp.SLOTS_PER_HISTORICAL_ROOT)%(uint64(sp.EPOCHS_PER_ETH1_VOTING_PERIOD)*uint64(sp.SLOTS_PER_EPOCH)) == 0 {
+			t.Errorf("%s: eth1 voting period divides SLOTS_PER_HISTORICAL_ROOT", cfg.ID)
+		}
+		if sp.EPOCHS_PER_SLASHINGS_VECTOR == sp.EPOCHS_PER_HISTORICAL_VECTOR || sp.MIN_ACTIVATION_BALANCE == sp.MAX_EFFECTIVE_BALANCE ||
+			sp.MAX_ATTESTATIONS_ELECTRA == sp.MAX_ATTESTATIONS || sp.MAX_BLOBS_PER_BLOCK_ELECTRA == sp.MAX_BLOBS_PER_BLOCK {
+			t.Errorf("%s: coinciding constants", cfg.ID)
+		}
+		epochs := int(ForkEpochs(sp)[3]) + int(period) + 3
+		c, err := NewChain(cfg, 64, "mixed", seed)
+		if err != nil {
+			t.Fatalf("%s: %v", cfg.ID, err)
+		}
+		c.Policy = PolicyByName("deposits")
+		c.Policy.Blobs = 1
+		for i := 0; i < epochs*int(sp.SLOTS_PER_EPOCH); i++ {
+			if _, err := c.NextSlot(nil); err != nil {
+				t.Fatalf("%s: %v", cfg.ID, err)
+			}
+		}
+		if nm {
+			nonMult++
+			for _, f := range forkNames {
+				if c.Counters.Ops["historical_accumulation:"+f] == 0 {
+					t.Errorf("%s (SPE %d, SPHR %d, forks %v): no historical accumulation processed by %s", cfg.ID, sp.SLOTS_PER_EPOCH, sp.SLOTS_PER_HISTORICAL_ROOT, ForkEpochs(sp), f)
+				}
+			}
+		}
+		if sp.MAX_EFFECTIVE_BALANCE != 32*gwei {
+			if sp.MAX_EFFECTIVE_BALANCE == 16*gwei {
+				cap16++
+			} else {
+				cap64++
+			}
+			if c.Counters.Ops["deposit_new"] > 0 && opsWith(c, "deposit_new_above_cap:") == "" {
+				t.Errorf("%s: no new-validator deposit above the cap", cfg.ID)
+			}
+		}
+		if sp.MAX_BLOBS_PER_BLOCK >= 7 {
+			blobs7++
+			if c.Counters.Ops["blobs:7+"] == 0 {
+				t.Errorf("%s: MAX_BLOBS_PER_BLOCK %d but no block with 7+ commitments", cfg.ID, sp.MAX_BLOBS_PER_BLOCK)
+			}
+		}
+		t.Logf("%s SPE=%d SPHR=%d cap=%d blobs=%d forks=%v:%s%s blobs7+=%d finalized=%d", cfg.ID, sp.SLOTS_PER_EPOCH, sp.SLOTS_PER_HISTORICAL_ROOT,
+			sp.MAX_EFFECTIVE_BALANCE/gwei, sp.MAX_BLOBS_PER_BLOCK, ForkEpochs(sp), opsWith(c, "historical_accumulation:"), opsWith(c, "deposit_new_above_cap:"), c.Counters.Ops["blobs:7+"], c.Counters.Finalized)
+	}
+	t.Logf("non-multiple SPHR: %d, cap 16: %d, cap 64: %d, blobs>=7: %d of %d seeds", nonMult, cap16, cap64, blobs7, seeds)
+	if nonMult == 0 || cap16+cap64 == 0 || blobs7 == 0 {
+		t.Errorf("an ingredient never occurred")
+	}
 }
